@@ -653,10 +653,30 @@ pub fn minimize_with_budget(case : &Case, test : &dyn Fn(&Case) -> bool, budget 
     let mut budget = budget;
     let mut try_candidate = |cand : Case, best : &mut Case, budget : &mut usize| -> bool
     {
-        if *budget == 0 { return false; }
-        *budget -= 1;
+        // (a candidate costs what it takes to run: a 4 000-operation soak is ~100 ordinary histories)
+        let cost = 1 + cand.ops.len() / 40;
+        if *budget < cost { *budget = 0; return false; }
+        *budget -= cost;
         if test(&cand) { *best = cand; true } else { false }
     };
+
+    // 0. long histories: drop halves, quarters, ... before going one by one
+    if best.ops.len() > 60
+    {
+        let mut chunk = best.ops.len() / 2;
+        while chunk >= 8 && budget > 0
+        {
+            let mut start = 0;
+            while start < best.ops.len() && budget > 0
+            {
+                let end = std::cmp::min(start + chunk, best.ops.len());
+                let mut cand = best.clone();
+                cand.ops.drain(start..end);
+                if cand.ops.len() == 0 || !try_candidate(cand, &mut best, &mut budget) { start = end; }
+            }
+            chunk /= 2;
+        }
+    }
 
     // 1. operations, last to first, to a fixpoint
     loop
